@@ -27,7 +27,7 @@ ASSUMPTIONS = [
 ]
 OUTSIDE = ["numeric values of the filters", "byte identity under real joblib process scheduling", "whitening (wrot) numerics", "append mode (quick tier)"]
 EXPLANATION = "a skolem output row stands for every sample; every tofile record of every worker that covers the row must carry the oracle's content."
-LEVEL_TEXT = ("For every recording length (within the batch bound), worker counts 1..4 (quick) / 1..8 (thorough) in different execution orders, padding, channel rejection and car/k-filter settings, z3 decides: no feasible input raises, "
+LEVEL_TEXT = ("For every recording length (within the batch bound), worker counts 1..2 (quick) / 1..4 (thorough) in different execution orders, padding, channel rejection and car/k-filter settings, z3 decides: no feasible input raises, "
               "the output has ns+padding rows, every row is covered by a write and every write covering it carries the oracle content for that row (hence the same bytes for any worker count), the sync columns are the raw sync words, "
               "and the saturation / RMS files get one entry per sample / batch.")
 LEVEL_NOTE = "Trusted: z3 (LIA+EUF+NRA-light), lazy arrays, fake files, the uninterpreted-operator contracts; the vendored NumPy stand-in for pyfftw is used only by replays."
@@ -38,8 +38,8 @@ S = NB - 2 * TAP
 
 def bounds(tier):
     if tier == "quick":
-        return {"max_batches": 4, "workers": [1, 2, 3], "ns_min": 2100}
-    return {"max_batches": 5, "workers": [1, 2, 3, 4, 6, 8], "ns_min": 2100}
+        return {"max_batches": 4, "workers": [1, 2], "ns_min": 1024, "batches_rule": "max(4, 2P+2)"}
+    return {"max_batches": 5, "workers": [1, 2, 3, 4], "ns_min": 1024, "batches_rule": "max(5, 2P+2)"}
 
 
 # ----------------------------------------------------------------------------------------- stubs
@@ -336,20 +336,21 @@ def cases(tier):
     b = bounds(tier)
     cs = []
     for P in b["workers"]:
+        mb = max(b["max_batches"], 2 * P + 2)        # enough batches for P genuinely parallel workers (ns >= P x NBATCH)
         orders = [None] if P == 1 else [None, list(range(P - 1, -1, -1))]
         for oi, order in enumerate(orders):
-            if tier == "quick" and oi == 1 and P != 2:
+            if oi == 1 and (tier == "quick" or P > 3):
                 continue
             cs.append(Case(f"destripe_P{P}_o{oi}", "case_destripe", {"nproc": P, "order": order, "ns2add": 0, "reject": True, "k_filter": True,
-                                                                     "max_batches": b["max_batches"], "ns_min": b["ns_min"]}, timeout_s=3400, max_paths=400))
-    cs.append(Case("destripe_P2_pad_car_noreject", "case_destripe", {"nproc": 2, "order": None, "ns2add": 3, "reject": False, "k_filter": False,
-                                                                      "max_batches": b["max_batches"], "ns_min": b["ns_min"]}, timeout_s=3400, max_paths=400))
+                                                                     "max_batches": mb, "ns_min": 1024 if P == 1 else 2100}, timeout_s=3400, max_paths=400))
+    cs.append(Case("destripe_P2_pad_car_noreject", "case_destripe", {"nproc": 2, "order": [1, 0], "ns2add": 3, "reject": False, "k_filter": False,
+                                                                      "max_batches": 6, "ns_min": 2100}, timeout_s=3400, max_paths=400))
     return cs
 
 
 def twins(tier):
     m = "ibldsp.voltage"
-    cs = ["destripe_P1_o0", "destripe_P2_o0", "destripe_P3_o0"]
+    cs = ["destripe_P1_o0", "destripe_P2_o0", "destripe_P2_pad_car_noreject"]
     return [
         Twin("stride_one_taper", m, "            first_s += NBATCH - SAMPLES_TAPER * 2", "            first_s += NBATCH - SAMPLES_TAPER", cs),
         Twin("seek_without_taper", m, "fid.seek(offset + ((first_s + SAMPLES_TAPER) * nc_out * nbytes))", "fid.seek(offset + (first_s * nc_out * nbytes))", cs[1:]),
